@@ -506,6 +506,35 @@ fn anf<'a>(
             )
         }
         LiftExpr::EBinary {
+            op: op @ (BinaryOp::And | BinaryOp::Or),
+            lhs,
+            rhs,
+            ty,
+        } if !matches!(*rhs, LiftExpr::EVar { .. } | LiftExpr::EPrim { .. }) => {
+            let decided = LiftExpr::EPrim {
+                value: Prim::Bool {
+                    value: op == BinaryOp::Or,
+                },
+                ty: ty.clone(),
+            };
+            let (then_branch, else_branch) = if op == BinaryOp::And {
+                (rhs, Box::new(decided))
+            } else {
+                (Box::new(decided), rhs)
+            };
+            anf(
+                anfenv,
+                gensym,
+                LiftExpr::EIf {
+                    cond: lhs,
+                    then_branch,
+                    else_branch,
+                    ty,
+                },
+                k,
+            )
+        }
+        LiftExpr::EBinary {
             op,
             lhs,
             rhs,
